@@ -49,7 +49,11 @@ Record Inv (s : state) : Prop := {
   inv_th : forall t th, get_thread (threads s) t = Some th -> thread_ok s t th;
   inv_ev : forall ev, In ev (published s) -> ev_ok s ev;
   inv_alo : forall t th x, get_thread (threads s) t = Some th -> t_resp th = Some (ROk x) ->
-              rq_dry (t_req th) = false -> exists ev, In ev (published s) /\ ev_tid ev = t
+              rq_dry (t_req th) = false -> exists ev, In ev (published s) /\ ev_tid ev = t;
+  (* the publisher of an event has finished, with a success (so: no event for a request that failed, crashed,
+     or gave up -- [ELockCancelled] in particular) *)
+  inv_ev_fin : forall ev, In ev (published s) ->
+              exists th x, get_thread (threads s) (ev_tid ev) = Some th /\ t_pc th = PFinished /\ t_resp th = Some (ROk x)
 }.
 
 (* ---- monotonicity ------------------------------------------------------------------------------------------ *)
@@ -102,6 +106,7 @@ Qed.
 Lemma inv_thread_step : forall s s' t o th',
   Inv s ->
   get_thread (threads s) t = o ->
+  (forall th, o = Some th -> t_pc th <> PFinished) ->
   persisted s' = persisted s ->
   (forall w, w <> t -> gsim (get_thread (threads s) w) (get_thread (threads s') w)) ->
   gsim (Some th') (get_thread (threads s') t) ->
@@ -111,12 +116,13 @@ Lemma inv_thread_step : forall s s' t o th',
   ((t_entry th' = None \/ (exists th, o = Some th /\ t_entry th' = t_entry th)) /\ v_uid s' = v_uid s \/
    (exists e, t_entry th' = Some e /\ e_uid e = v_uid s) /\ v_uid s' = S (v_uid s)) ->
   (published s' = published s \/
-   exists ev, published s' = published s ++ [ev] /\ ev_tid ev = t /\ ev_ok s' ev) ->
+   exists ev, published s' = published s ++ [ev] /\ ev_tid ev = t /\ ev_ok s' ev /\
+              t_pc th' = PFinished /\ exists x, t_resp th' = Some (ROk x)) ->
   (forall x, t_resp th' = Some (ROk x) -> rq_dry (t_req th') = false ->
      (exists th, o = Some th /\ t_resp th = Some (ROk x)) \/ exists ev, In ev (published s') /\ ev_tid ev = t) ->
   Inv s'.
 Proof.
-  intros s s' t o th' I Ho Hp Hoth Hme Hreq Hok Hbat Hent Hpub Hresp.
+  intros s s' t o th' I Ho Hnf Hp Hoth Hme Hreq Hok Hbat Hent Hpub Hresp.
   assert (Hreqs : forall w th, get_thread (threads s) w = Some th ->
              exists th2, get_thread (threads s') w = Some th2 /\ t_req th2 = t_req th).
   { intros w th Hw. destruct (Nat.eq_dec w t) as [->|Hne].
@@ -160,7 +166,7 @@ Proof.
       eapply thread_ok_gsim; [| |eapply inv_th; eauto].
       * intros e. rewrite Hp. auto.
       * exact Hoth.
-  - intros ev Hin. destruct Hpub as [Hpub|(ev0 & Hpub & Ht & Hev0)]; rewrite Hpub in Hin.
+  - intros ev Hin. destruct Hpub as [Hpub|(ev0 & Hpub & Ht & Hev0 & _)]; rewrite Hpub in Hin.
     + eapply ev_ok_mono with (b := []); [rewrite app_nil_r; exact Hp|exact Hreqs|]. apply (inv_ev s I). exact Hin.
     + apply in_app_or in Hin. destruct Hin as [Hin|[Hin|[]]].
       * eapply ev_ok_mono with (b := []); [rewrite app_nil_r; exact Hp|exact Hreqs|]. apply (inv_ev s I). exact Hin.
@@ -182,6 +188,19 @@ Proof.
       * destruct Hoth; subst th; exact Hr.
       * destruct Hoth; subst th; exact Hd.
       * exists ev. auto.
+  - assert (Hold : forall ev, In ev (published s) ->
+               exists th x, get_thread (threads s') (ev_tid ev) = Some th /\ t_pc th = PFinished /\ t_resp th = Some (ROk x)).
+    { intros ev Hin. destruct (inv_ev_fin s I ev Hin) as (th & x & G & Hpc & Hr).
+      destruct (Nat.eq_dec (ev_tid ev) t) as [E|Hne].
+      - rewrite E, Ho in G. exfalso. exact (Hnf th G Hpc).
+      - specialize (Hoth _ Hne). rewrite G in Hoth.
+        destruct (get_thread (threads s') (ev_tid ev)) as [y|]; simpl in Hoth; [|contradiction].
+        exists y, x. split; [reflexivity|]. destruct Hoth; subst y; auto. }
+    intros ev Hin. destruct Hpub as [Hpub|(ev0 & Hpub & Ht & _ & Hfin & x & Hr)]; rewrite Hpub in Hin.
+    + apply Hold. exact Hin.
+    + apply in_app_or in Hin. destruct Hin as [Hin|[Hin|[]]]; [apply Hold; exact Hin|].
+      subst ev0. rewrite Ht. destruct (get_thread (threads s') t) as [y|]; simpl in Hme; [|contradiction].
+      exists y, x. split; [reflexivity|]. destruct Hme; subst y; auto.
 Qed.
 
 (* ---- resume ---------------------------------------------------------------------------------------------- *)
@@ -189,7 +208,7 @@ Ltac head_destruct H :=
   repeat match type of H with
   | (match ?x with _ => _ end) = Some _ => destruct x eqn:?; try discriminate H
   end.
-Ltac e3_cbn := cbn [to_state of_state finish set_th release_ik with_pc persisted v_last v_lasttx v_pending v_batch v_iks v_refs v_revs v_locks v_queue v_cs v_uid gen threads published u_persisted u_last u_lasttx u_pending u_batch u_iks u_refs u_revs u_locks u_queue u_cs u_uid u_threads u_published t_req t_pc t_postings t_unb t_view t_entry t_txid t_granted t_resp t_gen grant build_entry e_id e_uid e_prev e_kind e_txid e_postings e_ref e_ik e_reverts e_owner e_unb ev_tid ev_kind ev_txid ev_reverted ev_persisted] in *.
+Ltac e3_cbn := cbn [to_state of_state finish set_th release_ik with_pc with_cancelled dequeue persisted v_last v_lasttx v_pending v_batch v_iks v_refs v_revs v_locks v_queue v_cs v_uid gen threads published u_persisted u_last u_lasttx u_pending u_batch u_iks u_refs u_revs u_locks u_queue u_cs u_uid u_threads u_published t_req t_pc t_postings t_unb t_view t_entry t_txid t_granted t_resp t_gen t_cancelled grant build_entry e_id e_uid e_prev e_kind e_txid e_postings e_ref e_ik e_reverts e_owner e_unb ev_tid ev_kind ev_txid ev_reverted ev_persisted] in *.
 
 Ltac others_tac :=
   intros w Hw; e3_cbn;
@@ -214,6 +233,8 @@ Ltac tok_tac :=
   match goal with Hok : _ /\ _ |- _ => destruct Hok as [Hk Hc] end;
   split; [try exact Hk|]; try solve [exact Logic.I | auto | intuition congruence].
 Ltac pub_tac := e3_cbn; left; reflexivity.
+Ltac nf_tac := let E := fresh in let F := fresh in intros ? E F; inversion E; subst; congruence.
+Ltac fin_tac := split; [|split; [reflexivity|eexists; reflexivity]].
 Ltac resp_tac t0 := e3_cbn; intros x Hr Hd; first [discriminate Hr | left; exists t0; split; [reflexivity|exact Hr]].
 
 
@@ -292,7 +313,7 @@ Proof.
   all: match goal with Hg : get_thread (threads ?s) ?t = Some ?t0, I : Inv ?s |- _ =>
          pose proof (inv_th s I t t0 Hg) as Hok;
          eapply (inv_thread_step s _ t (Some t0) _ I Hg);
-         [ try reflexivity | try others_tac | try me_tac | try req_tac | try tok_tac | try bat_tac | try (ent_tac t0) | try pub_tac | try (resp_tac t0) ] end.
+         [ nf_tac | try reflexivity | try others_tac | try me_tac | try req_tac | try tok_tac | try bat_tac | try (ent_tac t0) | try pub_tac | try (resp_tac t0) ] end.
   all: try solve [apply he_dry; assumption].
   all: try solve [apply N.eqb_neq; assumption].
   all: try solve [destruct (find_by_ik _ _) eqn:Hf; [apply find_by_ik_some in Hf; intuition congruence|exact Logic.I]].
@@ -301,7 +322,7 @@ Proof.
     unfold thread_ok in Hok; rewrite Heqp in Hok; destruct Hok as (Hk & Hin & Hik & Hnz).
     rewrite e3_same_kind_match in Heqb0.
     destruct (rq_dry (t_req t0)) eqn:Hdry; [left; reflexivity|].
-    right. eexists. split; [reflexivity|]. split; [reflexivity|].
+    right. eexists. split; [reflexivity|]. split; [reflexivity|]. fin_tac.
     eapply ev_ok_replay with (th := t0) (e := e);
       [reflexivity | e3_cbn; apply e3_get_set_same | reflexivity | assumption ..].
   - e3_cbn. intros x Hr Hd. right. rewrite Hd. eexists. split; [apply in_or_app; right; left; reflexivity|reflexivity].
@@ -309,7 +330,7 @@ Proof.
     unfold thread_ok in Hok; rewrite Heqp in Hok; destruct Hok as (Hk & Hin & Hik & Hnz).
     rewrite e3_same_kind_match in Heqb0.
     destruct (rq_dry (t_req t0)) eqn:Hdry; [left; reflexivity|].
-    right. eexists. split; [reflexivity|]. split; [reflexivity|].
+    right. eexists. split; [reflexivity|]. split; [reflexivity|]. fin_tac.
     eapply ev_ok_cross with (th := t0) (e := e);
       [reflexivity | e3_cbn; apply e3_get_set_same | reflexivity | assumption ..].
   - e3_cbn. intros x Hr Hd. right. rewrite Hd. eexists. split; [apply in_or_app; right; left; reflexivity|reflexivity].
@@ -327,14 +348,14 @@ Proof.
     unfold thread_ok in Hok; rewrite Heqp in Hok; destruct Hok as (Hk & Hc).
     destruct (rq_dry (t_req t0)) eqn:Hdry; [left; reflexivity|].
     destruct (Hc Hdry) as (e' & E1 & E2 & E3).
-    right. eexists. split; [reflexivity|]. split; [reflexivity|].
+    right. eexists. split; [reflexivity|]. split; [reflexivity|]. fin_tac.
     eapply ev_ok_own with (th := t0) (e := e');
       [reflexivity | e3_cbn; apply e3_get_set_same | reflexivity | auto ..].
   - e3_cbn. intros x Hr Hd. right. rewrite Hd. eexists. split; [apply in_or_app; right; left; reflexivity|reflexivity].
   - unfold thread_ok in Hok; rewrite Heqp in Hok; destruct Hok as (Hk & Hc).
     destruct (rq_dry (t_req t0)) eqn:Hdry; [left; reflexivity|].
     rewrite Heql in Hc. specialize (Hc Heqb0). destruct Hc as (e' & E1 & E2 & E3); [discriminate|exact Hdry|].
-    right. eexists. split; [reflexivity|]. split; [reflexivity|].
+    right. eexists. split; [reflexivity|]. split; [reflexivity|]. fin_tac.
     eapply ev_ok_own with (th := t0) (e := e');
       [reflexivity | e3_cbn; apply e3_get_set_same | reflexivity | auto ..].
   - e3_cbn. intros x Hr Hd. right. rewrite Hd. eexists. split; [apply in_or_app; right; left; reflexivity|reflexivity].
@@ -349,7 +370,7 @@ Proof.
   all: unfold enter_run, enter_exec; repeat match goal with |- context [match ?x with _ => _ end] => destruct x eqn:? end.
   all: match goal with Hg : get_thread (threads ?s) ?t = None, I : Inv ?s |- _ =>
          eapply (inv_thread_step s _ t None _ I Hg);
-         [ try reflexivity | try others_tac | try me_tac | try (intros ? E; discriminate E)
+         [ intros ? E; discriminate E | try reflexivity | try others_tac | try me_tac | try (intros ? E; discriminate E)
          | unfold thread_ok; e3_cbn; split; [try reflexivity|]; try solve [exact Logic.I | auto | intuition congruence]
          | try bat_tac | e3_cbn; left; split; [left; reflexivity|reflexivity] | try pub_tac
          | e3_cbn; intros x Hr Hd; discriminate Hr ] end.
@@ -376,6 +397,7 @@ Proof.
   - e3_cbn. intros ev Hin. eapply ev_ok_mono with (b := b); [reflexivity| |apply (inv_ev s I ev Hin)].
     e3_cbn. intros w th Hw. exists th. auto.
   - e3_cbn. apply (inv_alo s I).
+  - e3_cbn. apply (inv_ev_fin s I).
 Qed.
 
 Definition crash_th (th : thread) : thread :=
@@ -383,7 +405,7 @@ Definition crash_th (th : thread) : thread :=
   | PFinished => th
   | _ => {| t_req := t_req th; t_pc := PFinished; t_postings := t_postings th; t_unb := t_unb th;
             t_view := t_view th; t_entry := t_entry th; t_txid := t_txid th;
-            t_granted := t_granted th; t_resp := Some RCrashed; t_gen := t_gen th |}
+            t_granted := t_granted th; t_resp := Some RCrashed; t_gen := t_gen th; t_cancelled := t_cancelled th |}
   end.
 
 Lemma e3_crash_threads : forall s w, get_thread (threads (crash s)) w = option_map crash_th (get_thread (threads s) w).
@@ -422,6 +444,51 @@ Proof.
   - intros t th x Hg Hr Hd. rewrite e3_crash_threads in Hg. destruct (get_thread (threads s) t) as [y|] eqn:E; [|discriminate].
     inversion Hg; subst th. rewrite crash_th_req in Hd. apply crash_th_resp in Hr.
     apply (inv_alo s I t y x E Hr Hd).
+  - intros ev Hin. destruct (inv_ev_fin s I ev Hin) as (th & x & G & Hpc & Hr).
+    exists th, x. rewrite e3_crash_threads, G. simpl. unfold crash_th. rewrite Hpc. auto.
+Qed.
+
+(* ---- cancellation ---------------------------------------------------------------------------------------------- *)
+(* [cancel] only sets the flag of the acting thread: no clause of the invariant reads [t_cancelled] *)
+Lemma thread_ok_cancelled : forall s s' t th,
+  (forall e, In e (persisted s) -> In e (persisted s')) -> thread_ok s t th -> thread_ok s' t (with_cancelled th).
+Proof. intros s s' t th Hinc H. apply (thread_ok_mono s s' t (with_cancelled th) Hinc). exact H. Qed.
+
+Lemma inv_cancel : forall s t s', Inv s -> cancel s t = Some s' -> Inv s'.
+Proof.
+  intros s t s' I H. unfold cancel in H.
+  destruct (get_thread (threads s) t) as [t0|] eqn:Hg; [|discriminate H].
+  destruct (negb (Nat.eqb (t_gen t0) (gen s))); [discriminate H|].
+  destruct (pc_finished (t_pc t0)) eqn:Hf; [discriminate H|].
+  inversion H; subst s'; clear H.
+  pose proof (inv_th s I t t0 Hg) as Hok.
+  eapply (inv_thread_step s _ t (Some t0) (with_cancelled t0) I Hg).
+  - intros th E F. inversion E; subst th. rewrite F in Hf. discriminate Hf.
+  - reflexivity.
+  - others_tac.
+  - me_tac.
+  - req_tac.
+  - eapply thread_ok_cancelled; [|exact Hok]. intros e He. exact He.
+  - bat_tac.
+  - e3_cbn. left. split; [right; exists t0; split; reflexivity|reflexivity].
+  - pub_tac.
+  - resp_tac t0.
+Qed.
+
+(* the ctx.Done() branch of the lock wait: [finish] with an error and without publishing, after [unlock] (the
+   intent had been granted) or [dequeue] *)
+Lemma inv_resume_cancelled : forall s t s', Inv s -> resume_cancelled s t = Some s' -> Inv s'.
+Proof.
+  intros s t s' I H. unfold resume_cancelled in H. cbv zeta in H.
+  head_destruct H.
+  all: inversion H; subst s'; clear H.
+  all: try (match goal with |- context [unlock ?t ?u] => destruct (e3_unlock_spec t u) as (q & ths & locks & Hre & Hun); rewrite Hun; clear Hun end).
+  all: repeat match goal with |- context [match ?x with _ => _ end] => destruct x eqn:? end.
+  all: match goal with Hg : get_thread (threads ?s) ?t = Some ?t0, I : Inv ?s |- _ =>
+         pose proof (inv_th s I t t0 Hg) as Hok;
+         eapply (inv_thread_step s _ t (Some t0) _ I Hg);
+         [ nf_tac | try reflexivity | try others_tac | try me_tac | try req_tac | try tok_tac | try bat_tac | try (ent_tac t0) | try pub_tac | try (resp_tac t0) ] end.
+  intros w Hw. e3_cbn. rewrite e3_get_set_other by exact Hw. exact (e3_recheck_get _ _ _ _ _ _ Hre w).
 Qed.
 
 Lemma inv_init : Inv init.
@@ -432,6 +499,7 @@ Proof.
   - intros t th H; discriminate H.
   - intros ev [].
   - intros t th x H; discriminate H.
+  - intros ev [].
 Qed.
 
 Lemma inv_step : forall s a s', Inv s -> step s a = Some s' -> Inv s'.
@@ -442,6 +510,8 @@ Proof.
   - eapply inv_persist_ok; eauto.
   - destruct (v_batch s); [|discriminate]. inversion H; subst. apply inv_crash. exact I.
   - inversion H; subst. apply inv_crash. exact I.
+  - eapply inv_cancel; eauto.
+  - eapply inv_resume_cancelled; eauto.
 Qed.
 
 Theorem inv_reachable : forall s, reachable s -> Inv s.
@@ -455,6 +525,32 @@ Theorem e3_no_preview_event : forall s, reachable s -> no_event_for_preview s.
 Proof.
   intros s R ev th Hin Hg. destruct (inv_ev s (inv_reachable s R) ev Hin) as (_ & e & th' & _ & Hg' & Hd & _).
   congruence.
+Qed.
+
+(* the publisher of every event has finished and answered a success *)
+Theorem e3_event_publisher_succeeded : forall s, reachable s -> forall ev, In ev (published s) ->
+  exists th x, get_thread (threads s) (ev_tid ev) = Some th /\ t_pc th = PFinished /\ t_resp th = Some (ROk x).
+Proof. intros s R. exact (inv_ev_fin s (inv_reachable s R)). Qed.
+
+(* ---- cancellation: neither cancelling a context nor giving up the lock wait publishes or writes anything ------ *)
+Theorem e3_cancelled_publishes_nothing : forall s a s',
+  (exists t, a = ACancel t \/ a = AResumeCancelled t) -> step s a = Some s' ->
+  published s' = published s /\ persisted s' = persisted s.
+Proof.
+  intros s a s' (t & [Ha|Ha]) H; subst a; simpl in H.
+  - unfold cancel in H. head_destruct H. inversion H; subst s'. split; reflexivity.
+  - unfold resume_cancelled in H. cbv zeta in H. head_destruct H. inversion H; subst s'; clear H.
+    destruct (e3_unlock_spec t (of_state s)) as (q & ths & locks & _ & Hun). rewrite Hun. clear Hun.
+    destruct (t_granted t0); split; reflexivity.
+Qed.
+
+(* a request that gave up its lock wait owns no event (nor does any request that answered an error or crashed) *)
+Theorem e3_cancelled_no_event : forall s t th, reachable s -> get_thread (threads s) t = Some th ->
+  t_resp th = Some (RErr ELockCancelled) -> forall ev, In ev (published s) -> ev_tid ev <> t.
+Proof.
+  intros s t th R Hg Hr ev Hin E.
+  destruct (e3_event_publisher_succeeded s R ev Hin) as (th' & x & G & _ & Hr').
+  rewrite E, Hg in G. inversion G; subst th'. rewrite Hr in Hr'. discriminate Hr'.
 Qed.
 
 (* what holds unconditionally: every event was published by a non-preview request of the event's kind when an
